@@ -11,6 +11,7 @@ package gripper
 // ParseEdge refuses the id GenID produced: KNOWN FINDING (clause total) - such an edge is
 // listed by the graph but cannot be fetched by id.
 //@ func (*EdgeSource).GenID
+//@   vars es srcID dstID
 //@   property C15
 //@   option prelude=keys,dash
 //@   pure
@@ -19,6 +20,7 @@ package gripper
 //@   ensures rev: es.reverse ==> result == es.toVertex.prefix + srcID + "-" + es.config.Label + "-" + es.fromVertex.prefix + dstID
 
 //@ func (*TabularGraph).ParseEdge
+//@   vars t gid tmp
 //@   property C15
 //@   option prelude=keys,dash
 //@   pure
@@ -31,30 +33,37 @@ package gripper
 // driver is called, no field of the graph is written): `pure` makes any write or any
 // call with effects in the body an undischarged frame obligation.
 //@ func (*TabularGraph).AddVertex
+//@   vars t vertex
 //@   property C15
 //@   pure
 //@   ensures refused: result != nil
 //@ func (*TabularGraph).AddEdge
+//@   vars t edge
 //@   property C15
 //@   pure
 //@   ensures refused: result != nil
 //@ func (*TabularGraph).BulkAdd
+//@   vars t stream
 //@   property C15
 //@   pure
 //@   ensures refused: result != nil && rd(stream) == old(rd(stream))
 //@ func (*TabularGraph).DelVertex
+//@   vars t key
 //@   property C15
 //@   pure
 //@   ensures refused: result != nil
 //@ func (*TabularGraph).DelEdge
+//@   vars t key
 //@   property C15
 //@   pure
 //@   ensures refused: result != nil
 //@ func (*TabularGraph).AddVertexIndex
+//@   vars t label field
 //@   property C15
 //@   pure
 //@   ensures refused: result != nil
 //@ func (*TabularGraph).DeleteVertexIndex
+//@   vars t label field
 //@   property C15
 //@   pure
 //@   ensures refused: result != nil
